@@ -82,7 +82,7 @@ def judge(fam, vec):
     if verdict != "ACCEPT":
         raise core.HarnessError("C11 generated an invalid vector %r" % (vec,))
     try:
-        obj = observe.cls_of(fam)(vec)
+        obj = observe.construct(fam, vec)
         ds = [obj.as_json(sort=s, minimal=m) for s, m in OPTS]
     except Exception as e:  # noqa
         return "raised %s: %s" % (type(e).__name__, e), None, None
